@@ -298,6 +298,12 @@ Definition wake_consumer (s : state) (c h : N) (tag : string) : state * bool :=
 (* queue.callConsumers *)
 Definition call_consumers (qu : queue) : queue := if q_active qu then qu <| q_call := true |> else qu.
 
+(* Queue.PopQos, success: the head leaves; when another message becomes the head the consumers are called (one that a
+   size window kept from the old head may have room for the new one) *)
+Definition popped (rest : list N) (qu : queue) : queue :=
+  let qu := qu <| q_ready := rest |> <| q_len ::= Z.pred |> <| q_mready ::= Z.pred |> in
+  match rest with [] => qu | _ :: _ => call_consumers qu end.
+
 (* ------------------------------------------------------------------ *)
 (* output helpers (channel.go: SendMethod / SendContent / sendError) *)
 Definition out1 (c h : N) (f : sframe) : list event := [(c, h, f)].
@@ -625,7 +631,7 @@ Definition consumer_turn (cfg : config) (fx : fixes) (s : state) (c h : N) (tag 
             | None => (s, [])
             | Some _ =>
               (* PopQos + the Ready metric (decremented a few statements later in the same turn) *)
-              let s := upd_queue s (c_queue cm) (fun qu => qu <| q_ready := rest |> <| q_len ::= Z.pred |> <| q_mready ::= Z.pred |>) in
+              let s := upd_queue s (c_queue cm) (popped rest) in
               let s := if c_noack cm then queue_ackmsg s (c_queue cm) u else s in
               let dtag := match get_chan s c h with Some ch => ch_dtag ch + 1 | None => 0 end in
               let s := upd_chan s c h (fun ch => ch <| ch_dtag := dtag |>) in
@@ -961,7 +967,7 @@ Definition handle_method (cfg : config) (fx : fixes) (s : state) (c h : N) (m : 
         match okr with
         | None => ok s (out1 c h SGetEmpty)
         | Some _ =>
-          let s := upd_queue s q (fun qu => qu <| q_ready := rest |> <| q_len ::= Z.pred |> <| q_mready ::= Z.pred |>) in
+          let s := upd_queue s q (popped rest) in
           let dtag := match get_chan s c h with Some ch => ch_dtag ch + 1 | None => 0 end in
           let s := upd_chan s c h (fun ch => ch <| ch_dtag := dtag |>) in
           let s := if noack
